@@ -7,6 +7,7 @@ import (
 	"github.com/jsightapi/jsight-api-go-library/directive"
 	"os"
 	"path/filepath"
+	"regexp"
 	"strings"
 	"time"
 
@@ -301,6 +302,22 @@ func injectFaults(fresh func() []*doc.Node, emit func(f fault)) {
 				}
 			}
 		}
+		// 8. faults of a path parameter that are only found when the path variables of all
+		// interactions are put together, after every directive has been read: the value of the
+		// first declared parameter becomes a reference to an object type / to an undefined type
+		if kw == "Path" && strings.HasPrefix(n.Body, "{") {
+			if m := pathFirstValue.FindStringSubmatchIndex(n.Body); m != nil {
+				for _, v := range []struct{ kind, ref string }{{"schema-error-path-object-type", "@zzobj"}, {"schema-error-path-undefined-type", "@zznope"}} {
+					t := fresh()
+					x, par := idxOf(t, k)
+					x.Body = n.Body[:m[2]] + v.ref + n.Body[m[3]:]
+					if v.ref == "@zzobj" {
+						t = append(t[:1:1], append([]*doc.Node{doc.N("TYPE", "@zzobj").WithBody("{\n  \"a\": 1\n}")}, t[1:]...)...)
+					}
+					emit(fault{kind: v.kind + "@Path", nodes: t, culprits: []*doc.Node{x}, injected: x, parent: par})
+				}
+			}
+		}
 		if kw == "PASTE" {
 			t := fresh()
 			x, par := idxOf(t, k)
@@ -324,6 +341,9 @@ func injectFaults(fresh func() []*doc.Node, emit func(f fault)) {
 		}
 	}
 }
+
+// pathFirstValue finds the value of the first property of a literal Path body.
+var pathFirstValue = regexp.MustCompile(`^\{\s*"[^"]+":\s*([^,\n/}]*[^,\n/} ])`)
 
 func isMethod(kw string) bool {
 	switch kw {
